@@ -109,6 +109,9 @@ pub fn exec_a(c: &CaseA) -> Outcome {
             nontrivial = true;
             labels.push("early-drop-with-pending".into());
         }
+        if singles_pending.len() > 64 {
+            labels.push("more-than-64-parked".into());
+        }
         // implementation
         let got = catch(std::panic::AssertUnwindSafe(|| {
             let it = sm.process(mk(c.start + t, multiple, ack));
@@ -190,9 +193,23 @@ fn strat_a(_t: Tier) -> BoxedStrategy<CaseA> {
             ack,
             take,
         });
-    (start, 1usize..40, vec(step, 0..50))
-        .prop_map(|(start, n, steps)| CaseA { start, n, steps })
-        .boxed()
+    let small = (start.clone(), 1usize..40, vec(step.clone(), 0..50)).prop_map(|(start, n, steps)| CaseA { start, n, steps });
+    // large backlogs: the lowest tag(s) stay outstanding while 65-400 later tags are confirmed
+    // individually (parked out of order), then multiples / the missing tags arrive
+    let parked = (4096u16..=65535, prop::bool::weighted(0.5), prop_oneof![6 => Just(255u8), 1 => 0u8..4]).prop_map(|(pick, ack, take)| Step {
+        pick,
+        multiple: false,
+        ack,
+        take,
+    });
+    let backlog = (start, 66usize..400, vec(parked, 65..380), vec(step, 0..30)).prop_map(|(start, n, mut steps, tail)| {
+        steps.truncate(n - 1);
+        steps.extend(tail);
+        // every tag must be representable: start + n stays below 2^64
+        let start = start.min(u64::MAX - 1000);
+        CaseA { start, n, steps }
+    });
+    prop_oneof![12 => small, 1 => backlog].boxed()
 }
 
 /// All histories for n <= bound tags (each step: which unconfirmed tag, single/multiple, ack/nack),
@@ -421,7 +438,7 @@ pub fn parts() -> Vec<Box<dyn PartDyn>> {
     vec![
         Box::new(Part::<CaseA> {
             name: "complete",
-            rule: "histories in which every tag start..start+n is confirmed exactly once (single or multiple, ack or nack, any arrival order, per-call early iterator drops), all enumerated for n<=4 (quick) / n<=5 (thorough) plus random n<40; oracle: reference model (first covering confirmation decides the outcome, emission as soon as the prefix is complete); non-trivial = an out-of-order single is later covered by a multiple, or an iterator is dropped with items pending; distinct by case hash",
+            rule: "histories in which every tag start..start+n is confirmed exactly once (single or multiple, ack or nack, any arrival order, per-call early iterator drops), all enumerated for n<=4 (quick) / n<=5 (thorough) plus random n<40 and, one case in thirteen, backlog histories of 66-400 tags in which the lowest tags stay outstanding while 65-380 later ones are confirmed individually; oracle: reference model (first covering confirmation decides the outcome, emission as soon as the prefix is complete); non-trivial = an out-of-order single is later covered by a multiple, or an iterator is dropped with items pending; distinct by case hash",
             cases: |t| t.pick(500_000, 10_000_000),
             threads: 16,
             strategy: strat_a,
